@@ -1,4 +1,39 @@
-import ErgoModel.Exec
+/-
+  C18 — Every command finds the same store, and init never hides data.
+  Model: ErgoModel/Path.lean; the file system is a parameter `fs : path → Kind` (symlinks not modelled).
+-/
+import ErgoProofs.Lemmas.PathThm
 namespace Ergo
-theorem C18_placeholder : True := trivial
+open Path
+
+/-- discovery depends only on the absolute directory a --dir spelling denotes (absolute, relative, trailing slash, `.`,
+    `..`, the .ergo directory itself): equal directories, equal answer -/
+theorem C18_spelling_independent (fs : P → Kind) (cwd s1 s2 : P) (h : absPath cwd s1 = absPath cwd s2) :
+    resolveErgoDir fs cwd s1 = resolveErgoDir fs cwd s2 :=
+  resolve_spelling fs cwd s1 s2 h
+
+/-- what the walk returns exists, is a directory named `.ergo`, sits directly under the start directory or one of its
+    ancestors, and is the nearest such: no directory in between has a `.ergo` entry -/
+theorem C18_nearest_enclosing (fs : P → Kind) (n : Nat) (start d : P) (h : resolveWalk fs n start = some (.ok d)) :
+    fs d = .dir ∧ ∃ k, d = join [iterDir k start, ergoName] ∧ ∀ j, j < k → fs (join [iterDir j start, ergoName]) = .missing := by
+  obtain ⟨k, hk, hnear⟩ := resolveWalk_nearest fs n start d h
+  exact ⟨(resolveWalk_sound fs n start d h).1, k, hk, hnear⟩
+
+/-- all commands read and write the same file: plans.jsonl if present, else events.jsonl if present, else plans.jsonl
+    (T1 `log_name_uses` checks that `getEventsPath` is the only place in the source that builds a log path) -/
+theorem C18_one_log_file (plans events : Bool) :
+    eventsFile plans events = (if plans then "plans.jsonl" else if events then "events.jsonl" else "plans.jsonl") := rfl
+
+/-- `init` on an existing store never changes which file holds the log, for all combinations of present files … -/
+theorem C18_init_hides_nothing (plans events lock : Bool) (h : plans = true ∨ events = true) :
+    let (p', e', _) := initFiles plans events lock
+    eventsFile p' e' = eventsFile plans events :=
+  init_keeps_log plans events lock h
+
+/-- … is idempotent, and recreates a missing lock file -/
+theorem C18_init_idempotent (plans events lock : Bool) :
+    let (p', e', l') := initFiles plans events lock
+    initFiles p' e' l' = (p', e', l') ∧ l' = true := by
+  cases plans <;> cases events <;> cases lock <;> simp [initFiles]
+
 end Ergo
